@@ -346,6 +346,12 @@ def rule_e(ctx, ix):
             if roles is None and (construct, txt) in SITE_ROLES:
                 roles, why = SITE_ROLES[(construct, txt)]
             if roles is None:
+                # the rows name the argument up to the renaming of locals
+                from ..util import alpha as _alpha
+                for (c_, t_), v_ in SITE_ROLES.items():
+                    if c_ == construct and _alpha(t_) == _alpha(arg):
+                        roles, why = v_
+            if roles is None:
                 raise AnalysisError('C15.e: the role of the index `%s` passed to dependent_axes in %s is not known (new call site)' % (txt, construct))
             ctx.ob(R, '%s dependent_axes(%s)' % (construct, txt),
                    'the index passed (%s: %s) is used by dependent_axes in that role' % ('/'.join(sorted(roles)), why), roles <= prole,
